@@ -93,6 +93,26 @@ class SimRLock(object):
     def _is_owned(self):
         return self._owner == _thread.get_ident()
 
+    # the protocol threading.Condition uses with an RLock
+    def _release_save(self):
+        state = (self._count, self._owner)
+        self._count = 0
+        self._owner = None
+        self._l.release()
+        return state
+
+    def _acquire_restore(self, state):
+        self._l.acquire()
+        self._count, self._owner = state
+
+    def _at_fork_reinit(self):
+        self._l = _real_allocate()
+        self._owner = None
+        self._count = 0
+
+    def locked(self):
+        return self._l.locked()
+
 
 def install():
     threading.Lock = SimLock
